@@ -14,6 +14,7 @@ from vf import drivers
 PROPERTY = "C16"
 LEVEL = "exploration"
 SHARDS = {"quick": 4, "thorough": 16}
+SHARD_TIMEOUT = {"quick": 300, "thorough": 3000}
 REQUIRED = ["roundtrip", "ascii", "expires-bracket", "max-age", "delete-expired", "timezones"]
 RULE = ("Names over the HTTP token alphabet; values: every code point 0-255 alone / leading / trailing / doubled / inside a carrier (exhaustive), every string of length <=5 over {backslash, quote, 0, 1, 7, 8}, all pairs "
         "from {\", \\, ;, ',', =, space, TAB, CR, LF, NUL, DEL, 0x80, 0xFF}, random Latin-1 strings <=64; 1-5 cookies per Cookie header in random "
